@@ -11,6 +11,7 @@ import (
 	"path/filepath"
 	"strings"
 	"testing"
+	"unicode/utf8"
 
 	"pgregory.net/rapid"
 
@@ -27,7 +28,9 @@ type c11Case struct {
 }
 
 var c11Unsupported = []string{"|", "in", "contains", "~", "!~"}
-var c11Tails = []string{"true", ")", "]", ",", "}", "{}", "%x", "$this", "@2020", "false", "(", "[0"}
+var c11Tails = []string{"true", ")", "]", ",", "}", "{}", "%x", "$this", "@2020", "false", "(", "[0",
+	// characters that look like white space but are not FHIRPath white space: never skipped, never trimmed
+	"\u00a0", "\f", "\v", "\u2028", "\u3000", "\u0085", "\u200b", "\ufeff"}
 
 func c11Gen(s Src) c11Case {
 	t := genProgramOf(s, pickOne(s, []string{"B", "B", "B", "B", "I", "D", "S", "C", "Da", "Q"}), s.Range(2, 6), pickOne(s, []int{0, 0, 5, 20}))
@@ -267,12 +270,21 @@ func c11Run(ctx *Ctx, c c11Case) {
 		} else if err == nil && e != nil {
 			ctx.Fail("source with unparsed trailing text accepted", fmt.Sprintf("%q compiled (trailing %q)", tail, c.Tail))
 		}
+		if r, _ := utf8.DecodeRuneInString(c.Tail); r > 0x7e || c.Tail == "\f" || c.Tail == "\v" {
+			// the same character in front of, or directly behind, the expression
+			for _, src := range []string{c.Tail + c.Min, c.Min + c.Tail, c.Tail + " " + c.Min + "\n"} {
+				if e, err, _, _ := compileGuarded(src); err == nil && e != nil {
+					ctx.Fail("source with text that is not FHIRPath white space around the expression accepted", fmt.Sprintf("%q compiled", src))
+					break
+				}
+			}
+		}
 	}
 }
 
 func TestC11(t *testing.T) {
 	r := newRec("C11",
-		"a case is one generated expression tree (typed-ish generator over all 13 precedence levels, every table function, parenthesised sub-terms, root type names in every position; 8% get an unsupported operator | in contains ~ !~) rendered minimally parenthesised per the N1 precedence table, fully parenthesised and decorated with gaps from {' ','\\n','\\t','\\r\\n','/* c */','/**/','// c\\n'}; oracles: the real parse tree of every rendering equals the generated tree, all renderings compile alike and evaluate to the same outcome on the fixture Patient + variables, String() is the source, a trailing token makes Compile fail; non-trivial = compiled, minimal ≠ full rendering, and the tree mixes ≥ 2 binary/type levels or has a polarity/invocation/indexer applied to a compound operand; distinct = FNV-64 of (min, decorated)",
+		"a case is one generated expression tree (typed-ish generator over all 13 precedence levels, every table function, parenthesised sub-terms, root type names in every position; 8% get an unsupported operator | in contains ~ !~) rendered minimally parenthesised per the N1 precedence table, fully parenthesised and decorated with gaps from {' ','\\n','\\t','\\r','\\r\\n','/* c */','/**/','// c' ended by \\n, \\r or \\r\\n}; oracles: the real parse tree of every rendering equals the generated tree, all renderings compile alike and evaluate to the same outcome on the fixture Patient + variables, String() is the source, a trailing token makes Compile fail; non-trivial = compiled, minimal ≠ full rendering, and the tree mixes ≥ 2 binary/type levels or has a polarity/invocation/indexer applied to a compound operand; distinct = FNV-64 of (min, decorated)",
 		"the N1 precedence table = alternative order of `expression` in fhirpath.g4; all binary operators left-associative")
 	runProperty(t, r, Stage[c11Case]{Name: "trees", Gen: c11Gen, Run: c11Run, N: pick(6000, 150000)})
 }
